@@ -109,9 +109,11 @@ def check_aux(chk, packed, exp, tagname):
             subsets = [s for r in range(1, 6) for s in itertools.combinations(fields, r)]
             if n > 20000:
                 subsets = [tuple(fields), ('pid',), ('lagr_pos', 'density'), ('tagged', 'lagr_idx')]
-            for sub in subsets:
+            for si, sub in enumerate(subsets):
                 kw = {f: True for f in sub}
-                out = unpack_pids(relayout(packed, len(sub) + (dt == np.float64)), box=box, ppd=ppd, float_dtype=dt, **kw)
+                # ppd as an int, as a float, and one ulp below / above (headers store NP**(1/3)): all denote the same particles-per-dimension
+                ppd_arg = [ppd, float(ppd), float(np.nextafter(float(ppd), 0.0)), float(np.nextafter(float(ppd), np.inf))][si % 4]
+                out = unpack_pids(relayout(packed, len(sub) + (dt == np.float64)), box=box, ppd=ppd_arg, float_dtype=dt, **kw)
                 nrun += 1
                 if set(out) != set(sub):
                     chk.violation(f'aux-{tagname}-columns', f'unpack_pids({sub}) returned {sorted(out)}', dict(sub=list(sub)))
